@@ -141,6 +141,13 @@ ADD4 = {
  "C18": ("census of the writers of scope.depth", "Only enterScope and the eval built-in's increment / deferred decrement write the depth the stack limit is compared with."),
  "C20": ("method-call census on package-level library objects", "Package-level objects shared by all runtimes are of types documented as safe for concurrent use."),
 }
+ADD5 = {
+ "C18": ("path simulation of every recover handler for the interrupt marker type", "A panic of the function received on Otto.Interrupt is wrapped in a marker at the poll sites, re-panicked unchanged by the try statement's handler and unwrapped by the handlers directly under the exported API."),
+}
+for _pid, (_t, _d) in ADD5.items():
+    t0, d0, n0 = P[_pid]
+    P[_pid] = (t0 + "; " + _t, d0 + " Also: " + _d, n0)
+
 for _pid, (_t, _d) in ADD4.items():
     t0, d0, n0 = P[_pid]
     P[_pid] = (t0 + "; " + _t, d0 + " Also: " + _d, n0)
